@@ -13,7 +13,8 @@ THEOREMS = [
     "Typedpy.C17.convert_compose_error", "Typedpy.C17.convert_latest_id", "Typedpy.C17.convert_idempotent",
     "Typedpy.C17.convert_pure", "Typedpy.C17.convert_empty_mapping", "Typedpy.C17.convert_frame",
     "Typedpy.C17.convert_deleted_absent", "Typedpy.C17.convert_constant_set",
-    "Typedpy.C17.versioned_deser_equiv", "Typedpy.C17.versioned_deser_result",
+    "Typedpy.C17.versioned_deser_equiv", "Typedpy.C17.versioned_deser_result", "Typedpy.C17.versioned_deser_extras",
+    "Typedpy.C17.deser_extras_example",
     "Typedpy.C17.new_instance_latest", "Typedpy.C17.version_statement_holds",
     "Typedpy.C17.compose_statement_holds", "Typedpy.C17.deser_default_history_holds",
     "Typedpy.C17.fixed_versionless_example", "Typedpy.C17.fixed_clobber_example",
@@ -26,8 +27,10 @@ RULE = ("histories of 0..5 (thorough 0..8) mappings over top-level keys a..e (+ 
         "arity); documents with role-typed values (scalars, sub-documents, lists of sub-documents incl. None / scalar "
         "elements); start versions: 78% in 1..n+1, 9% no version key, 4% beyond latest, 5% <= 0, 4% non-int; ALL split "
         "points 0..n (+ occasionally n+2); per case one Versioned class (fields Anything / Integer / String / Sub / "
-        "Array[Sub]), with and without `_versions_mapping` when n == 0, regular and direct_trusted_mapping "
-        "deserialization; a case is non-trivial if at least one mapping is non-empty; distinct by sha256 of the case")
+        "Array[Sub]; in half of the cases ~45% of the keys a..e are NOT fields, so histories move / delete / add non-field "
+        "keys; nested class with or without the key `a` declared), `_additional_properties` unset / True / False, "
+        "keep_undefined default / True / False, with and without `_versions_mapping` when n == 0, regular and "
+        "direct_trusted_mapping deserialization; a case is non-trivial if at least one mapping is non-empty; distinct by sha256 of the case")
 ASSUMPTIONS = [
     "documents are JSON values (None/bool/int/str/list/dict with str keys); no floats",
     "FunctionCall functions are the 6 pure functions of harness/suites/convert.py, implemented identically in Lean (applyFn)",
@@ -148,8 +151,9 @@ def judge(case, impl, model):
         if d_old is not None and not versionless:
             if d_new is not None and not S.same_deser(d_old, d_new):
                 key = f"deser-inequivalent:{region}" if region else "deser-law:old-version-differs-from-latest"
-                fails.append((key, f"Deserializer(V).deserialize(d) = {_short(d_old)} but on the converted document "
-                                   f"{_short(d_new)}; doc={_short(doc)} history={history} fields={case['ftypes']}"))
+                fails.append((key, f"Deserializer(V).deserialize(d, keep_undefined={case.get('keep')}) = {_short(d_old)} "
+                                   f"but on the converted document {_short(d_new)}; doc={_short(doc)} history={history} "
+                                   f"fields={case['ftypes']} additional_properties={case.get('addl')}"))
             if d_plain is not None and not S.same_deser(d_old, d_plain, ignore_version=True):
                 if not case["hasAttr"] and d_old.get("err") == "AttributeError":
                     fails.append(("deser-crash:versions-mapping-attribute-absent",
